@@ -57,7 +57,11 @@ static size_t verif_fwrite(const void *p, size_t sz, size_t n, FILE *f) { if (f 
 static bool write_error_reported;
 static int verif_fclose(FILE *f) { if (f == &out_file) { out_closed++; if (IN.write_fails) { write_error_reported = true; errno = ENOSPC; return EOF; } } return 0; }
 static int verif_ferror(FILE *f) { if (IN.write_fails && (f == &out_file || f == stdout)) { write_error_reported = true; return 1; } return 0; }
-static int verif_fflush(FILE *f) { if (IN.write_fails && (f == &out_file || f == stdout)) { write_error_reported = true; errno = ENOSPC; return EOF; } return 0; }
+static int verif_fflush(FILE *f) {
+#ifdef NATIVE
+  if (f == stdout) fflush(f);      // the real one (the macro below is not defined yet): keeps ASSERT-FAILED lines of native replays
+#endif
+  if (IN.write_fails && (f == &out_file || f == stdout)) { write_error_reported = true; errno = ENOSPC; return EOF; } return 0; }
 static int verif_unlink(const char *p) { return 0; }
 static int verif_stat(const char *p, struct stat *st) { return -1; }
 static char *verif_dirname(char *p) { return "."; }
@@ -79,14 +83,45 @@ static char *verif_format(char *fmt, ...) { return "formatted"; }
 #define dirname verif_dirname
 #define basename verif_basename
 #define format verif_format
+#ifndef NATIVE
+// cbmc 6.11 has no strndup model (POSIX contract: fresh NUL-terminated copy of at most n bytes)
+static char *verif_strndup(const char *s, size_t n) {
+  char *r = malloc(n + 1);
+  __CPROVER_assume(r != 0);
+  size_t i = 0;
+  for (; i < n && i < 16 && s[i]; i++) r[i] = s[i];
+  r[i] = 0;
+  return r;
+}
+#define strndup verif_strndup
+#endif
 #define main chibicc_main
 #include "main.c"
 #undef main
 
 noreturn void error(char *fmt, ...) { verif_exit(1); }
-void init_macros(void) {}
-void define_macro(char *name, char *buf) {}
-void undef_macro(char *name) {}
+// C17 (history/cc1-cmdline): the operations the compiler proper has applied to the macro table, in order, by the time it
+// starts reading the source - wherever in main()/parse_args()/cc1() they are issued.
+enum { MO_INIT = 1, MO_DEF, MO_UNDEF };
+static struct { int op; char *name, *body; } mo_rec[8];
+static int mo_nrec;
+static const struct { int op; char *name, *body; } *mo_want;
+static int mo_nwant = -1;
+static bool mo_checked;
+static void mo_add(int op, char *name, char *body) { if (mo_nrec < 8) { mo_rec[mo_nrec].op = op; mo_rec[mo_nrec].name = name; mo_rec[mo_nrec].body = body; } mo_nrec++; }
+void init_macros(void) { mo_add(MO_INIT, 0, 0); }
+void define_macro(char *name, char *buf) { mo_add(MO_DEF, name, buf); }
+void undef_macro(char *name) { mo_add(MO_UNDEF, name, 0); }
+static void mo_check(void) {
+  if (mo_nwant < 0 || mo_checked) return;
+  mo_checked = true;
+  VASSERT(mo_nrec == mo_nwant + 1 && mo_rec[0].op == MO_INIT, "before the source is read: the predefined set, then one operation per -D/-U option");
+  for (int i = 0; i < 3; i++) {
+    if (i >= mo_nwant || i + 1 >= mo_nrec) continue;
+    VASSERT(mo_rec[i + 1].op == mo_want[i].op && streq(mo_rec[i + 1].name, mo_want[i].name), "the i-th -D/-U of the command line is the i-th operation on the macro table (so the last one wins)");
+    if (mo_want[i].op == MO_DEF) VASSERT(streq(mo_rec[i + 1].body, mo_want[i].body), "-DNAME=body defines NAME as body");
+  }
+}
 char *search_include_paths(char *f) { return NULL; }
 File **get_input_files(void) { static File *none[1]; return none; }
 void hashmap_test(void) {}
@@ -95,6 +130,7 @@ static Token eof_tok = {.kind = TK_EOF};
 static Obj dummy_prog;
 
 Token *tokenize_file(char *p) {
+  mo_check();
   if (IN.fail_stage == ST_TOKENIZE_NULL) { phase_failed = true; errno = ENOENT; return NULL; }   // unreadable input
   if (IN.fail_stage == ST_TOKENIZE_EXIT) { phase_failed = true; verif_exit(1); }                 // lexical error
   tokenized = true;
@@ -168,6 +204,28 @@ void h_cc1_S_o(void) {
 void h_cc1_E_o(void) {
   static char *argv[] = {"/x/cc", "-E", "-o", "out.i", "a.c", "-cc1", "-cc1-input", "a.c", NULL};
   run(argv, 8, "out.i", true);
+}
+// C17: -D/-U of the same name in both orders, as the cc1 child sees them (`cc -c <opts> a.c`)
+#ifndef MO_SEQ
+#define MO_SEQ 0
+#endif
+void h_cc1_macro_order(void) {
+#if MO_SEQ == 0
+  static char *argv[] = {"/x/cc", "-c", "-UA", "-DA=3", "a.c", "-cc1", "-cc1-input", "a.c", "-cc1-output", "/tmp/chibicc-vvvvv0", NULL};
+  static const struct { int op; char *name, *body; } want[] = {{MO_UNDEF, "A", 0}, {MO_DEF, "A", "3"}};
+  int argc = 10, nw = 2;
+#elif MO_SEQ == 1
+  static char *argv[] = {"/x/cc", "-c", "-DA=3", "-UA", "a.c", "-cc1", "-cc1-input", "a.c", "-cc1-output", "/tmp/chibicc-vvvvv0", NULL};
+  static const struct { int op; char *name, *body; } want[] = {{MO_DEF, "A", "3"}, {MO_UNDEF, "A", 0}};
+  int argc = 10, nw = 2;
+#else
+  static char *argv[] = {"/x/cc", "-c", "-U", "B", "-DB=2", "-U", "A", "a.c", "-cc1", "-cc1-input", "a.c", "-cc1-output", "/tmp/chibicc-vvvvv0", NULL};
+  static const struct { int op; char *name, *body; } want[] = {{MO_UNDEF, "B", 0}, {MO_DEF, "B", "2"}, {MO_UNDEF, "A", 0}};
+  int argc = 13, nw = 3;
+#endif
+  mo_want = want; mo_nwant = nw; mo_nrec = 0; mo_checked = false;
+  run(argv, argc, "/tmp/chibicc-vvvvv0", false);
+  VASSERT(mo_checked, "the source was read (after the macro operations)");
 }
 // `cc -E a.c` (stdout)
 void h_cc1_E_stdout(void) {
